@@ -686,13 +686,16 @@ ATTACH = {
     'C04': ['cooler.core._rangequery._region_to_extent', 'cooler.core._rangequery.region_to_offset',
             'cooler.core._rangequery.region_to_extent', 'cooler.api.Cooler.offset', 'cooler.api.Cooler.extent',
             'cooler.api.Cooler.binsize', 'cooler.api.Cooler.bins', 'cooler.api.Cooler.pixels', 'cooler.api.Cooler.matrix',
-            'cooler.util.parse_region', 'cooler.core._selectors.RangeSelector2D.fetch'],
+            'cooler.util.parse_region', 'cooler.core._selectors.RangeSelector2D.fetch',
+            'cooler.util.parse_region_string', 'cooler.util.parse_humanized'],   # a range given as a string with units (C04-r2-3)
     'C05': ['cooler.create._ingest.aggregate_records', 'cooler.create._ingest.sanitize_records', 'cooler.create._ingest.sanitize_pixels',
             'cooler.create._ingest.TabixAggregator.aggregate', 'cooler.util.get_chromsizes'],
     'C06': ['cooler.create._create.create', 'cooler.create._create.create_cooler', 'cooler._reduce.CoolerMerger.__init__',
             'cooler.create._create.write_pixels'],
-    'C07': ['cooler.create._create.create', 'cooler.create._create.write_pixels'],
-    'C08': ['cooler.util.GenomeSegmentation.__init__', 'cooler.util.get_chromsizes'],
+    'C07': ['cooler.create._create.create', 'cooler.create._create.write_pixels',
+            'cooler.cli.merge.merge', 'cooler.cli._util.parse_field_param'],      # cooler merge --field name:agg=... (C07-r3-2)
+    'C08': ['cooler.util.GenomeSegmentation.__init__', 'cooler.util.get_chromsizes',
+            'cooler.cli.coarsen.coarsen', 'cooler.cli._util.parse_field_param'],  # cooler coarsen --field
     'C09': ['cooler._reduce.coarsen_cooler', 'cooler._reduce.CoolerCoarsener.__init__', 'cooler._reduce.CoolerCoarsener._aggregate',
             'cooler.fileops._is_cooler'],
     'C10': ['cooler.parallel.split', 'cooler.parallel.chunkgetter.__call__', 'cooler.parallel.apply_pipeline',
@@ -705,7 +708,7 @@ ATTACH = {
             'cooler.create._create.create_from_unordered', 'cooler.create._create.create_cooler'],
     'C14': ['cooler.core._tableops.get', 'cooler.api.Cooler.bins', 'cooler.api.Cooler.pixels', 'cooler.api.Cooler.chroms'],
     'C15': ['cooler.fileops._is_cooler', 'cooler.fileops.is_multires_file', 'cooler.fileops.is_scool_file'],
-    'C16': ['cooler.util.buffered'] if False else [],
+    'C16': ['cooler.cli._util.parse_field_param', 'cooler.cli._util.parse_bins', 'cooler.cli._util.parse_kv_list_param'],
     'C17': ['cooler.create._create.create_cooler'],
     'C18': ['cooler.api.Cooler.extent', 'cooler.api.Cooler.offset', 'cooler.api.Cooler.bins'],
     'C19': [],
@@ -749,8 +752,11 @@ def _callees(ctx, qual):
                     if q in repo.funcs:
                         out.add(q)
                     elif q in repo.classes:
-                        for m in repo.class_methods(q).values():
-                            out.add(m.qualname)
+                        # constructing an object runs its constructor; which methods are called on it later is not
+                        # known here (the wide scoping took all of them: every user of Cooler pulled in all of Cooler)
+                        for name, m in repo.class_methods(q).items():
+                            if _WIDE[0] or name in ('__init__', '__call__', '__iter__'):
+                                out.add(m.qualname)
                 elif x[0] == 'fn' and x[1] in repo.funcs:
                     out.add(x[1])
                 elif x[0] == 'attr' and x[1] == ('v', 'self') and fa.fi.cls is not None:
@@ -761,6 +767,7 @@ def _callees(ctx, qual):
 
 
 _REACH_CACHE = {}
+_WIDE = [False]
 _SYN_CACHE = {}
 _PLUMBING = {}
 
@@ -797,19 +804,47 @@ def _syntactic_graph(repo):
     return g
 
 
+_MECH = None
+
+
+def mechanism_functions(prop):
+    """The functions a property's anchors name as its mechanisms (properties.jsonl gives them as line ranges of the
+    pinned commit; resolved once to qualified names and frozen in cverif/data/mechanism_functions.json)."""
+    global _MECH
+    if _MECH is None:
+        import json
+        import os
+        with open(os.path.join(os.path.dirname(os.path.dirname(os.path.abspath(__file__))), 'data', 'mechanism_functions.json')) as fh:
+            _MECH = json.load(fh)
+    return list(_MECH.get(prop, []))
+
+
 def _auto(ctx, prop, lib):
-    """Every library function that lives in a file the property is anchored in, or is reachable
-    (depth <= 3 in the call / reference graph) from a function of those files."""
+    """Scope of a property: the library functions among its mechanism functions (the functions its anchors name),
+    what those call (depth <= 2 in the call / reference graph), and - in plumbing mode - their direct callers.
+    (VERIF_SCOPE=files restores the first, much wider scoping by anchored *files*, depth 3 down and 2 up, which made
+    nearly every property compare half of the package: a behaviour-preserving rewrite of zoomify_cooler was reported
+    by the region-string property.)"""
     import os
     from ..sweeps import anchor_files
     files = set(anchor_files(prop))
-    key = (ctx.repo.root, prop)
+    wide = os.environ.get('VERIF_SCOPE') == 'files'
+    _WIDE[0] = wide
+    key = (ctx.repo.root, prop, wide)
     if key not in _REACH_CACHE:
-        seeds = [fi.qualname for fi in ctx.repo.all_functions()
-                 if os.path.relpath(fi.file, ctx.repo.root) in files]
+        if wide:
+            seeds = [fi.qualname for fi in ctx.repo.all_functions()
+                     if os.path.relpath(fi.file, ctx.repo.root) in files]
+        else:
+            seeds = []
+            for q in mechanism_functions(prop) + list(ATTACH.get(prop, [])):
+                if ctx.repo.has_func(q):
+                    seeds.append(ctx.repo.func(q).qualname)
+                    # nested functions of a mechanism function belong to it
+                    seeds.extend(k for k in ctx.repo.funcs if k.startswith(ctx.repo.func(q).qualname + '.<locals>.'))
         seen = set(seeds)
         frontier = list(seeds)
-        for depth in range(3):
+        for depth in range(3 if wide else 2):
             nxt = []
             for q in frontier:
                 # only expand through functions of the anchored files or library functions
@@ -818,26 +853,27 @@ def _auto(ctx, prop, lib):
                         seen.add(c)
                         nxt.append(c)
             frontier = [q for q in nxt if q in lib or os.path.relpath(ctx.repo.func(q).file, ctx.repo.root) in files]
-        # reverse direction: functions (anywhere in the package) that call into the anchored files - the
-        # plumbing that hands options to the anchored mechanisms (depth <= 2)
+        # reverse direction: functions (anywhere in the package) that call the mechanism functions - the
+        # plumbing that hands options to them
         g = _syntactic_graph(ctx.repo)
         anchored = set(seeds)
         up = set()
         frontier = set(anchored)
-        for depth in range(2):
+        for depth in range(2 if wide else 1):
             nxt = {f for f, cs in g.items() if cs & frontier and f not in anchored and f not in up}
             up |= nxt
             frontier = nxt
         classes = {cq for cq, (node, m) in ctx.repo.classes.items() if os.path.relpath(m.path, ctx.repo.root) in files}
         # helpers of the plumbing: library functions that a plumbing function calls directly to compute what it
-        # hands to the anchored code - restricted to the CLI option parsers of cli/_util.py (parse_field_param, parse_bins, ...), compared in full
+        # hands to the anchored code - restricted to the CLI option parsers of cli/_util.py (parse_field_param,
+        # parse_bins, ...), compared in full
         helpers = set()
         for f in up:
             for c in g.get(f, ()):
-                if c in lib and c not in seen and c not in up and c.startswith('cooler.cli._util.'):
+                if wide and c in lib and c not in seen and c not in up and c.startswith('cooler.cli._util.'):
                     helpers.add(c)
         seen = seen | helpers
-        _REACH_CACHE[key] = (seen | up, up - seen, anchored | classes | up)
+        _REACH_CACHE[key] = (seen | up, up - seen, (anchored | classes | up) if wide else (seen | classes | up))
     reach, up_only, targets = _REACH_CACHE[key]
     _PLUMBING[(ctx.repo.root, prop)] = (up_only, targets)
     out = []
@@ -846,7 +882,7 @@ def _auto(ctx, prop, lib):
             continue
         q = ctx.repo.func(qual).qualname
         rel = os.path.relpath(ctx.repo.func(qual).file, ctx.repo.root)
-        if rel in files or q in reach:
+        if (wide and rel in files) or q in reach:
             out.append(qual)
     return out
 
